@@ -392,6 +392,13 @@ func c12LoginHistory(t *testing.T, out *vfOut, rnd *vfRand, users []webUser, nam
 		}
 		req := httptest.NewRequest(http.MethodPost, "/control/login", strings.NewReader(body))
 		req.Header.Set("Content-Type", "application/json")
+		if rnd.Chance(1, 3) {
+			// proxy headers must not change the address the limiter counts
+			// (they are only used for logging)
+			req.Header.Set(vfPick(rnd, []string{"X-Real-IP", "X-Forwarded-For", "CF-Connecting-IP", "True-Client-IP"}),
+				fmt.Sprintf("203.0.113.%d", rnd.Intn(250)))
+			classes["login-proxy-header"] = true
+		}
 		req.RemoteAddr = addr + ":40000"
 		if strings.Contains(addr, ":") {
 			req.RemoteAddr = "[" + addr + "]:40000"
